@@ -20,6 +20,7 @@ from .asttypes import (
     For,
     FunctionDef,
     If,
+    Interactive,
     Match,
     Module,
     Try,
@@ -28,6 +29,7 @@ from .asttypes import (
     TryStar,
     match_case,
     mod,
+    stmt,
     _ExceptHandlers,
     _match_cases,
 )
@@ -1121,7 +1123,10 @@ def _put_slice_stmtlike_old(
             put_body = put_fst.a.cases
 
         else:  # 'body', 'orelse', 'finalbody'
-            put_fst = code_as_stmts(code, options, root._parse_params, coerce=True)
+            codea = code.a if isinstance(code, fst.FST) else code
+            coerce = fst.FST.get_option('coerce', options) or isinstance(codea, (stmt, Interactive))  # a `stmt` or the body of an `Interactive` are our own element type and are always accepted, anything else is a real node type coercion
+
+            put_fst = code_as_stmts(code, options, root._parse_params, coerce=coerce)
             put_body = put_fst.a.body
 
             if not put_body and field != 'body' and len_slice == len_body:  # if putting empty body to optional field that would delete all elememnt there then convert to a delete regardless of what trivia might be in the body to put because otherwise we would wind up with a hanging empty 'else:' or `finally:`
